@@ -61,8 +61,51 @@ def sqlite_orders(prog, rep, sites, mname):
     return out
 
 
+KEY_ADAPTORS = {"sort_by": ("sort_by_key", "sort_unstable_by_key", "sort_by_cached_key"), "max_by": ("max_by_key",)}
+CMP_ADAPTORS = {"sort_by": ("sort_by", "sort_unstable_by"), "max_by": ("max_by",)}
+
+
+def key_chain(cl):
+    """for a key-extraction closure (`|m| Reverse((m.created_at, m.processed_at, m.id))`): (field chain, reversed?) or None"""
+    ret = [s for bb, s in cl.stmts() if s["d"] == [0]]
+    if len(ret) != 1:
+        return None
+    r = ret[0]
+    rev = False
+    inner = None
+    if r.get("k") == "agg" and last_seg(r.get("adt")) == "Reverse" and r.get("o") and "p" in r["o"][0]:
+        rev = True
+        inner = r["o"][0]["p"][0]
+    elif r.get("k") == "tuple":
+        inner = 0
+    elif r.get("k") == "use" and r.get("o") and "p" in r["o"][0]:
+        inner = r["o"][0]["p"][0]
+    if inner is None:
+        return None
+    tup = [s for bb, s in cl.stmts() if s["d"] == [inner] and s.get("k") == "tuple"]
+    if len(tup) != 1:
+        return None
+    chain = []
+    for o in tup[0]["o"]:
+        if "p" not in o:
+            return None
+        l = o["p"][0]
+        flds = [e[1:] for e in o["p"][1:] if isinstance(e, str) and e.startswith(".")]
+        if not flds:
+            for bb, s in cl.stmts():
+                if s["d"] == [l] and s.get("k") in ("use", "ref") and s["o"] and "p" in s["o"][0]:
+                    flds = [e[1:] for e in s["o"][0]["p"][1:] if isinstance(e, str) and e.startswith(".")]
+        if len(flds) != 1:
+            return None
+        chain.append(flds[0])
+    return chain, rev
+
+
+KEYED = {}     # closure path -> True when it is a key-extraction closure (sort_by_key family)
+
+
 def memory_sort_closures(prog, rep, mname, adaptor):
-    """{variant: closure Fn} for closures passed to sort_by / max_by in the memory backend's method"""
+    """{variant: closure Fn} for closures passed to sort_by / max_by (or their *_by_key forms) in the memory backend's method"""
     out = {}
     fs = prog.find(adt="MdkMemoryStorage", name=mname, trait="GroupStorage")
     rep.floor("memory-sort", "<MdkMemoryStorage as GroupStorage>::%s" % mname, len(fs), 1)
@@ -74,11 +117,12 @@ def memory_sort_closures(prog, rep, mname, adaptor):
             continue
         cl = prog.fns[s["closure"]]
         fl = f.flows_from({s["d"][0]}, through_calls=False)
-        used = [c for c in f.live_calls() if c.name == adaptor and any("p" in a and a["p"][0] in fl for a in c.args)]
+        used = [c for c in f.live_calls() if c.name in CMP_ADAPTORS[adaptor] + KEY_ADAPTORS[adaptor] and any("p" in a and a["p"][0] in fl for a in c.args)]
         if not used:
             continue
         v = arm_variant(prog, f, bb, "MessageSortOrder")
         out[v] = cl
+        KEYED[cl.path] = used[0].name in KEY_ADAPTORS[adaptor]
     return out
 
 
@@ -108,7 +152,16 @@ def clause_orders(prog, rep, sch, sites):
                     rep.check(s.stmt.limit == "1", "pagination", "sqlite/last_message/%s/limit" % variant, "LIMIT 1", "last_message query is not LIMIT 1", s.loc())
             cl = mc.get(variant)
             rep.floor("memory-sort", "memory %s closure for %s" % (mname, variant), 1 if cl else 0, 1)
-            if cl:
+            if cl and KEYED.get(cl.path):
+                kc = key_chain(cl)
+                # sort_by_key(Reverse(k)): newest first; max_by_key(k): maximum under k
+                m = (kc[0], (-1 if kc[1] else 1)) if kc else None
+                tbl = "key closure %s" % (kc,)
+                ok = m is not None and m[0] == canon and m[1] == sign_want
+                rep.check(ok, "memory-sort", "memory/%s/%s" % (mname, variant),
+                          "key closure orders by %s (%s)" % (canon, "reversed: newest first" if sign_want < 0 else "maximum"),
+                          "memory %s key closure for %s yields %s; expected %s with sign %d (a missing last key leaves ties in arbitrary order)" % (adaptor, variant, m if m else tbl, canon, sign_want), cl.loc())
+            elif cl:
                 try:
                     tbl = cmpeval.table(prog, cl, {2: ("param", "A", 2), 3: ("param", "B", 3), 1: ("tuple", ())}, "A", "B")
                     m = cmpeval.match_chain(tbl)
